@@ -438,9 +438,83 @@ def twins_history(seed, res):
                 res.outcome(('twins', tag))
 
 
+def oddsize_history(seed, res):
+    """Carts picotool accepts although a region is LARGER than its slot in the memory map (a .p8 with extra rows, a
+    section built from a longer buffer): the memory map is fixed, so a write still changes exactly the addressed bytes
+    of each region (offset = address - region start) and nothing else, including the surplus tail."""
+    import io
+    from pico8.game.formatter.p8 import P8Formatter
+    from pico8.game.game import Game
+    from lib import refcodec as rc
+    mem = initial(seed, 0)
+    enc = {'gfx': lambda b: rc.gfx_rows(b), 'gff': lambda b: rc.hex_rows(b, 128), 'map': lambda b: rc.hex_rows(b, 128),
+           'sfx': lambda b: rc.sfx_rows(b), 'music': lambda b: rc.music_rows(b)}
+    cases = []
+    for big in ('gfx', 'map', 'gff', 'music', 'sfx'):
+        out = [rc.P8_HEADER, b'version 33\n', b'__lua__\n', b'x=1\n']
+        for name, lo, hi in REGIONS:
+            data = bytes(mem[lo:hi])
+            if name == 'music':
+                data = bytes((b & 0x7f) if i % 4 == 3 else b for i, b in enumerate(data))
+            rows = enc[name](data)
+            if name == big:
+                rows = rows + rows[:2]          # two rows more than the region holds
+            out.append(b'__' + name.encode() + b'__\n' + b''.join(r.encode() + b'\n' for r in rows))
+        cases.append(('p8-extra-rows-' + big, ('p8', b''.join(out))))
+        cases.append(('from_bytes-longer-' + big, ('bytes', big)))
+    classes = _section_classes()
+    for tag, (how, payload) in cases:
+        case = {'oddsize': tag}
+        try:
+            if how == 'p8':
+                g = P8Formatter.from_file(io.BytesIO(payload), filename='x.p8')
+            else:
+                g = make_game(mem)
+                lo, hi = next((lo, hi) for n, lo, hi in REGIONS if n == payload)
+                buf = bytearray(mem[lo:hi]) + bytearray(b'\xEE' * 70)
+                sec = _construct(classes[payload], payload, buf, 'from_bytes', gfx=g.gfx)
+                setattr(g, payload, sec)
+                if payload == 'gfx':
+                    g.map._gfx = sec
+        except Exception:
+            res.count('oddsize_cart_refused')       # refusing such a cart is fine
+            continue
+        sizes0 = {n: len(getattr(g, n)._data) for n, _, _ in REGIONS}
+        if all(sizes0[n] == hi - lo for n, lo, hi in REGIONS):
+            res.count('oddsize_cart_normalised')    # so is cutting it to size while loading
+            continue
+        for k, (s_, e_) in enumerate(ALIAS_WRITES + [(0x2000, 0x2008), (0x3000, 0x3100), (0x3200, 0x3210)]):
+            res.evaluations += 1
+            before = {n: bytes(getattr(g, n)._data) for n, _, _ in REGIONS}
+            data = bytes(fill(seed, k % 5 + 1)[:e_ - s_])
+            data = (data * ((e_ - s_) // max(1, len(data)) + 1))[:e_ - s_]
+            try:
+                g.write_cart_data(data, s_)
+            except Exception as ex:
+                res.violation('C18|oddsize|raise|%s|%s' % (type(ex).__name__, tag), 'write [%#x,%#x) on %s raised %r' % (s_, e_, tag, ex), case)
+                break
+            bad = None
+            for n, lo, hi in REGIONS:
+                want = bytearray(before[n])
+                a, b = max(s_, lo), min(e_, hi)
+                if a < b:
+                    want[a - lo:b - lo] = data[a - s_:b - s_]
+                if bytes(getattr(g, n)._data) != bytes(want):
+                    bad = n
+                    break
+            if bad:
+                res.violation('C18|oddsize|misplaced|%s' % tag,
+                              'cart with an oversize region (%s): write [%#x,%#x) did not land at address - region start in region %s '
+                              '(or touched other bytes)' % (tag, s_, e_, bad), {'oddsize': tag, 'hist': [[s_, e_]]})
+                break
+            res.nontriv(('oddsize', tag, k))
+        else:
+            res.outcome(('oddsize', tag))
+
+
 def shards(tier, seed):
     depth, deltas = plan(tier)
-    return [(tier, seed, init, i) for init in (0, 1) for i in range(len(WRITES[deltas[0]]))] + [('replace', seed), ('alias', seed), ('loaded', seed), ('twins', seed)]
+    return [(tier, seed, init, i) for init in (0, 1) for i in range(len(WRITES[deltas[0]]))] + [('replace', seed), ('alias', seed), ('loaded', seed), ('twins', seed), ('oddsize', seed)]
 
 
 def run_shard(item):
@@ -448,6 +522,11 @@ def run_shard(item):
         res = ShardResult()
         replace_history(item[1], res)
         res.sample({'history': 'write x6; replace section object(s); write x6; ... on one Game'})
+        return res
+    if item[0] == 'oddsize':
+        res = ShardResult()
+        oddsize_history(item[1], res)
+        res.sample({'history': 'carts with one region larger than its memory-map slot (extra .p8 rows / longer from_bytes buffer); 12 boundary writes'})
         return res
     if item[0] == 'twins':
         res = ShardResult()
@@ -480,6 +559,9 @@ def replay(case):
     if 'replace' in case:
         replace_history(0, res)
         return [(s, v[0]) for s, v in res.violations.items()]
+    if 'oddsize' in case:
+        oddsize_history(0, res)
+        return [(s_, v[0]) for s_, v in res.violations.items()]
     if 'twins' in case:
         twins_history(0, res)
         return [(s_, v[0]) for s_, v in res.violations.items()]
